@@ -378,6 +378,24 @@ qb_ipc_auth_creds(struct ipc_auth_data *data)
 			data->ugp.gid = cred.gid;
 			break;
 		}
+#ifdef SO_PEERCRED
+		if (res == 0) {
+			/*
+			 * What the kernel puts into SCM_CREDENTIALS on behalf of
+			 * the sender are its real ids; the ones that count are
+			 * the effective ones, as for the other platforms.
+			 */
+			struct ucred peer;
+			socklen_t peer_len = sizeof(peer);
+
+			if (getsockopt(data->sock, SOL_SOCKET, SO_PEERCRED,
+				       &peer, &peer_len) == 0 &&
+			    peer_len == sizeof(peer)) {
+				data->ugp.uid = peer.uid;
+				data->ugp.gid = peer.gid;
+			}
+		}
+#endif
 	}
 #else /* no credentials */
 	data->ugp.pid = 0;
